@@ -118,7 +118,11 @@ comments that stay on
 their line (`// …`, `/* … */`, `注：…`, `注123：…`) anywhere between tokens; any arrangement of tokens on lines that `LinProgram` allows.  NOT covered — only the lexer lemma `lex_rendered_doc` would have to be
 extended (a new kind of `El` and its lemma in Proofs/RenderGapLayout.lean); the parser side (`parse_doc_is_laid_out` via `Run`, and
 `comments_are_invisible` for comment tokens) is already general —:
-(a) comments that span lines (`/* … */` over several lines, `注：“…”` / `注：「…」`: they add lines to the table from inside a token);
+(a) quoted comments whose body contains the comment's own quote pair (`注：“… “nested” …”`: the scanner counts nested pairs; `MCmt.WF`
+    excludes the pair from the body).  Comments that span lines are covered (`El.mcmt`: `/* … */`, `注：“…”`, `注：「…」`, `注N：“…”`; one
+    line-table entry per line break inside, indentation 0, no `LineText`).  A token that FOLLOWS such a comment (or a multi-line literal)
+    on its closing line stands on a line of indentation 0 in the lexer's table (KF-C03-statement-after-multiline-token): `LinProgram` is read
+    against that table, so inside an indented block such a text renders no program and the theorem says nothing about it;
 (b) text literals with line breaks that are not `Verbatim` (a back-tick escape AND a raw line break in one literal: `Item.text` is
     `encodeSafe` of a text without CR / LF, `El.lit` any `Verbatim` text, line breaks included);
 (c) numbers with sign, decimal point or exponent, and names that contain operator marks (`NameChar` excludes
